@@ -153,7 +153,7 @@ fn main() {
     }
     let scratch = scratch_dir("C14");
     let _ = TEMP_BASE.set(scratch.clone());
-    let mut n_hist: u64 = if thorough { 400 } else { 40 };
+    let mut n_hist: u64 = if thorough { 400 } else { 24 };
     let mut only: Option<u64> = None;
     let mut probes_only = false;
     if let Ok(p) = std::env::var("HX_REPLAY") {
@@ -207,15 +207,17 @@ fn main() {
     if only.is_none() {
         let r = std::panic::catch_unwind(std::panic::AssertUnwindSafe(|| {
             let (v1, r1) = probes::probe_assume_valid(&scratch);
-            let (v2, r2) = probes::probe_negative(&scratch);
-            (v1, r1, v2, r2)
+            let (mut v2, r2) = probes::probe_negative(&scratch);
+            let (v3, r3) = probes::probe_ghost_chain(&scratch);
+            v2.extend(v3);
+            (v1, r1, v2, json!({"asked_before_arrival": r2, "ghost_header_then_negative_extension": r3}))
         }));
         match r {
             Ok((v1, r1, v2, r2)) => {
                 viol.extend(v1);
                 viol.extend(v2);
                 probe_results = json!({"assume_valid": r1, "negative_answer": r2});
-                *stats.entry("directed_probes".into()).or_default() += 2;
+                *stats.entry("directed_probes".into()).or_default() += 3;
             }
             Err(p) => {
                 let msg = p.downcast_ref::<String>().cloned().or_else(|| p.downcast_ref::<&str>().map(|s| s.to_string())).unwrap_or_default();
